@@ -6,4 +6,5 @@ import DafRel.Props.C10
 #print axioms DafRel.Props.C10.step_mono
 #print axioms DafRel.Props.C10.history_write_once_evaluate_once
 #print axioms DafRel.Props.C10.processing_is_write_once
+#print axioms DafRel.Props.C10.repeated_processing_is_write_once
 #print axioms DafRel.Props.C10.evalsOK_empty
